@@ -2,6 +2,7 @@ import PymtlVerif.Driver.Sexp
 import PymtlVerif.Model.SVMod
 import PymtlVerif.Model.VTr
 import PymtlVerif.Model.Flat
+import Std.Data.HashMap
 /-!
 Handler `sv`: executable face of `Model/SV.lean` (and `Model/VTr.lean`, `Model/Flat.lean`) for the
 C03 / C12 correspondence checks.
@@ -155,6 +156,12 @@ partial def illTypedStmt (Γ : Env) : Stmt → List String
 def elabErrors (F : Flat) (Γ : Env) : List String :=
   (F.errors ++ F.procs.flatMap fun p => (illTypedStmt Γ p.body).map fun e => e ++ "@" ++ p.name).eraseDups
 
+/-- the environment `envOf decls` (first declaration of a name wins), looked up through a hash map -/
+def declMap (decls : List (String × Decl)) : Std.HashMap String Decl :=
+  decls.foldl (fun m (x, d) => if m.contains x then m else m.insert x d) {}
+
+@[noinline] def envOfMap (m : Std.HashMap String Decl) : Env := fun x => m[x]?
+
 /-! ### simulation request -/
 
 def showNats (xs : List Nat) : String := "(" ++ " ".intercalate (xs.map toString) ++ ")"
@@ -211,7 +218,8 @@ def procLabel (F : Flat) (i : Nat) : String :=
 
 def simReply (mods : List Module) (top : String) (cycles : List Cyc) (obs : List String) : String :=
   let F := flatten mods top
-  let Γ := envOf F.decls
+  let dm := declMap F.decls
+  let Γ := envOfMap dm
   let errs := elabErrors F Γ
   let ws := F.wsets
   let confl := driverConflicts ws
@@ -324,7 +332,8 @@ def blkDiff (cb : Bool) (decls : List (String × Decl)) (Γ : Env) (params : Lis
 
 def blkReply (be : VTr.Backend) (m : Module) (r : VTr.RStmt) (parsed : Stmt) (stores : List (List (String × Nat × Nat))) : String :=
   let decls := moduleDecls m
-  let Γ := envOf decls
+  let dm := declMap decls
+  let Γ := envOfMap dm
   let params := m.params.map (paramProc "")
   let model := VTr.trStmt be r
   let errs := (illTypedStmt Γ model).eraseDups
